@@ -524,10 +524,59 @@ fn results_only(out: &[String]) -> Vec<String> {
     // ops keep "<out>@<state>" (the state is cache independent)
     out.iter().map(|o| res_of(o).to_string()).collect()
 }
+/// more than 256 table handles opened on ONE cache (cache ids beyond one byte): two tables with the same keys and
+/// layout but different values; the first and the last handle (ids 1 and 258, equal modulo 256 ... and every other
+/// pair) must each see their own data while the other's blocks are cached
+fn many_tables_one_cache(d: &mut Driver, rep: &mut Report, rng: &mut Rng) {
+    let cfg = WCfg { cmp: CmpKind::Bytewise, block_size: 24, restart: 2, snappy: false, pol: PolKind::Bloom(10) };
+    let keys: Vec<Vec<u8>> = (0..6).map(|i| format!("m{:02}", i).into_bytes()).collect();
+    let mk = |tag: u8| -> Vec<(Vec<u8>, Vec<u8>)> { keys.iter().map(|k| (k.clone(), vec![tag; 7])).collect() };
+    let (ea, eb) = (mk(b'a'), mk(b'b'));
+    let (ca, cb) = match (build_case(d, rep, &cfg, &ea), build_case(d, rep, &cfg, &eb)) {
+        (Some(a), Some(b)) => (a, b),
+        _ => return,
+    };
+    if ca.img.len() != cb.img.len() {
+        return;
+    }
+    let nopen = 258 + rng.below(3);
+    let mut ops = vec![];
+    for t in 0..nopen {
+        // handle 0 reads file A, every other handle file B
+        ops.push(Op::Open { t, file: if t == 0 { 0 } else { 1 }, size: ca.img.len(), cmp: CmpKind::Bytewise, pol: cfg.pol.clone() });
+    }
+    // the same key through handle 0 (file A) and then through handles whose ids agree with handle 0's in the low
+    // byte / differ by one / are the last ones - and back
+    let mut probe: Vec<(usize, usize)> = vec![];
+    for (j, other) in [256usize, 255, 257, nopen - 1, 1, 256].iter().enumerate() {
+        let k = j % keys.len();
+        probe.push((0, k));
+        probe.push((*other, k));
+        probe.push((0, k));
+    }
+    for (t, k) in probe.iter() {
+        ops.push(Op::Get(*t, keys[*k].clone()));
+    }
+    let s = Session { cap: 64, files: vec![ca.img.clone(), cb.img.clone()], faults: vec![], ops: ops.clone() };
+    rep.case(&s.request(), true);
+    rep.count("sessions_with_more_than_256_handles_on_one_cache");
+    let (out, _) = compare_full(d, rep, &s, Cmp::All);
+    for (j, (t, k)) in probe.iter().enumerate() {
+        let want = if *t == 0 { &ea } else { &eb };
+        let expect = format!("ok {}", hex(&want[*k].1));
+        let got = out.get(nopen + j).map(|o| res_of(o).to_string()).unwrap_or_default();
+        if got != expect {
+            rep.judge_fail(J::obj(vec![("what", J::s("with more than 256 tables open on one cache a lookup returns another table's data")), ("handles_opened", J::N(nopen as i64)), ("handle", J::N(*t as i64)), ("key", J::s(&hex(&keys[*k]))), ("got", J::s(&got)), ("expected", J::s(&expect))]));
+        }
+    }
+}
 pub fn c10(ctx: &Ctx) -> Report {
     let base = Report::new("C10", "1..3 tables (random configurations; byte-identical images and two handles on one image included) sharing one block cache of capacity 1..#blocks+1, 1..4 clients (iterators and lookups) whose steps (next, prev, seek, get, approx) are interleaved at random, table handles dropped while their iterators continue; compared op by op with the model (results, read_at log, hit/miss events, cache count); judge: every op result equals the same session with capacity 10000 (private unbounded cache); count <= capacity after every op; cache ids of distinct opens differ; hit/miss events equal those of the Spec LRU fed with the access sequence, a miss reads the block exactly once, a hit reads nothing; thorough adds all interleavings of two 4-step clients; non-trivial = session with >= 2 clients or capacity < #blocks; distinct by request");
     let n = per_thread(ctx, 3000, 40000);
     parallel(&ctx.driver, ctx.threads, ctx.seed, base, |t, d, rng, rep| {
+        if t == 0 {
+            many_tables_one_cache(d, rep, rng);
+        }
         for i in 0..n {
             // tables
             let nt = rng.range(1, 3);
